@@ -23,7 +23,7 @@ def hexs(s):
 class C01(Prop):
     id = "C01"
     thorough_rounds = 4   # thorough tier: this many independently seeded rounds of the random generators (duplicates dropped)
-    modules = ["H3.Props.C01"]
+    modules = ["H3.Props.C01", "H3.Lemmas.GenAgreeSend"]
     engines = ["e2e"]
     design_ref = "DESIGN.md section 7, C01"
     level_text = ("Lean composition theorems over the component models (H3.E2E glue: Message, wire, sendAll, recvPattern, "
